@@ -112,8 +112,9 @@ def _explore(ctx, cases_path, tier):
                         plant[k] = c
                     else:
                         samples[k] = c
+        # measured: 20-45 s quick, 5 min thorough under load
         mc = vlib.run_tlc(ctx, "MC_Naming", "MC_Naming_%s.cfg" % tier, "mc", workers=5,
-                          timeout=2400 if ctx.quick else 6000, sink=sink)
+                          timeout=600 if ctx.quick else 3000, sink=sink)
         if min(n_cases.values()) == 0 or len(plant) != 3:
             raise vlib.ToolError("MC_Naming printed %s cases" % n_cases)
         # binding self-check (spec -> impl): an expectation that cannot be met must be handed on by the harness
@@ -133,8 +134,11 @@ def run(ctx):
 
     # ---- spec -> impl -------------------------------------------------------------------------------
     cases_path = ctx.path("cases.ndjson")
-    # TLC start-up: a StackOverflowError while it pre-computes the constants was seen in about one start out of ten
-    # before the chains of lazy values in Naming!Crc32 were forced; such a start is simply repeated
+    # TLC start-up: the ASSUME on Naming!Crc32 is evaluated by TLC's main thread, whose stack is the small default one
+    # (JAVA_TOOL_OPTIONS -Xss reaches the workers only). With chains of lazy values in Crc32 that start-up overflowed
+    # its stack - reported as StackOverflowError or, re-wrapped at every level, never ending (two starts out of three
+    # under load). Crc32 now forces every step (8 of 8 and every later start fine); a start that still overflows is
+    # simply repeated.
     for attempt in (1, 2, 3):
         try:
             mc, n_cases, plant, samples = _explore(ctx, cases_path, tier)
@@ -240,7 +244,8 @@ def run(ctx):
     known = vlib.load_known(ctx.prop)
     if all(v.key in known for v in violations):
         need = ["gn|expect-name", "gn|expect-none", "sfi|expect-name", "sfi|expect-none", "sfi|expect-replacement-char",
-                "nav|expect-name", "nav|expect-none", "inst|expect-error", "inst|expect-font", "inst|expect-last-resort-name"]
+                "nav|expect-name", "nav|expect-none", "inst|expect-error", "inst|expect-font", "inst|expect-last-resort-name",
+                "inst|expect-unknown-axis-name"]
         miss = [k for k in need if not rep.get(k)]
         if miss:
             raise vlib.ToolError("vacuous exploration: never expected by a generated case: %s" % miss)
